@@ -103,7 +103,9 @@ func genC03(c *Ctx) {
 			}
 		case kNonG1:
 			for _, i := range invalid {
-				sigs[i] = askBytes("e1 add " + hx(sigs[i]) + " " + hx(askBytes(fmt.Sprintf("e1 torsion %d", i%3))))
+				// large-order torsion and the small orders 3, 3, 11 alternate over positions and subsets
+				ti := []int{0, 100, 1, 101, 2, 102}[(i+len(invalid))%6]
+				sigs[i] = askBytes("e1 add " + hx(sigs[i]) + " " + hx(askBytes(fmt.Sprintf("e1 torsion %d", ti))))
 			}
 		case kWrongLen:
 			for _, i := range invalid {
@@ -142,6 +144,32 @@ func genC03(c *Ctx) {
 		if err != nil {
 			c.Case("batch-error", "expect ok #", "err "+errClass(err))
 			return
+		}
+		// the coefficients are fresh randomness on every call: a defect that shows with probability 1/3 (a component
+		// of order 3 killed by the blinding) needs repetitions; keep the first run that disagrees with Verify
+		reps := 0
+		if kind == kNonG1 {
+			reps = 16
+		}
+		for rep := 0; rep < reps; rep++ {
+			res2, err2 := crypto.BatchVerifyBLSSignaturesOneMessage(pks, sigs, msg, h)
+			if err2 != nil {
+				break
+			}
+			differs := false
+			for i := range pks {
+				if res2[i] != res[i] {
+					differs = true
+				}
+			}
+			if differs {
+				for i := range pks {
+					if ok, _ := pks[i].Verify(sigs[i], msg, h); res[i] == ok {
+						res[i] = res2[i]
+					}
+				}
+				break
+			}
 		}
 		for i := range pks {
 			ok, _ := pks[i].Verify(sigs[i], msg, h)
